@@ -370,7 +370,7 @@ def spec_records(chk, inputs, ground, name='on'):
     res = C.tlc('TopologyOn', os.path.relpath(cfg, C.SPEC), name='on-run-' + name, workers=4,
                 env=dict(TRACE_FILE=tf), timeout=1500)
     if res.violated:
-        raise C.Machinery('Topology invariant %s violated on a given object list (%s)' % (res.violated, name))
+        raise C.SpecViolation(res.violated, name)
     if not res.ok:
         raise C.Machinery('TLC failed on TopologyOn: ' + res.out[-1500:])
     if chk is not None:
